@@ -27,7 +27,7 @@ d = d[:i] + ("## 10. Seeded changes and which checks catch them\n\nEach entry is
              f"In every wave between half and three quarters of the changes were missed by the checks as they stood when the change "
              f"arrived; after strengthening, every kept change of waves 1-17 is caught on the current /repo HEAD (`tools/all_seeds.sh`, "
              f"`tools/all_seeds_par.sh`), except those marked RETIRED, which a later repair of /repo turned into correct code. "
-             f"Wave 18 (S260-S279) arrived in the last hour of the work: S279 makes the C20 check hang instead of reporting (a harness gap: no per-execution horizon for an exception raised in the result callback; listed as not decided); 6 of the other 19 changes are reported (S268 after a new C09 base, S270, S272 after the whole-case confirmation mode was added, S273, S274, S275), the other 13 are OPEN MISSES, marked MISSED in the table with what each needs - they are the next strengthening targets (same-named entries / histories in different places under anchored patterns: S261, S266, S271; nested histories below ignored folders: S264, S278; same-named nested histories sealed in one run: S265; depth-2 nested root after a plain sibling: S267; files over 1 MiB with a changing number of formats: S263; colliding relative paths across histories for diff: S262; a 0-byte rename next to a new empty folder: S276; two library objects / two commands of one process: S260, S269, S277). Side remarks of the authors about the unchanged code were reproduced and, where genuine, repaired (F25, F27-F30). "
+             f"Wave 18 (S260-S279) arrived in the last hour of the work: S279 makes the C20 check hang instead of reporting (a harness gap: no per-execution horizon for an exception raised in the result callback; listed as not decided); 7 of the other 19 changes are reported (S268 after a new C09 base, S276 after a new C17 layout, S270, S272 after the whole-case confirmation mode was added, S273, S274, S275), the other 12 are OPEN MISSES, marked MISSED in the table with what each needs - they are the next strengthening targets (same-named entries / histories in different places under anchored patterns: S261, S266, S271; nested histories below ignored folders: S264, S278; same-named nested histories sealed in one run: S265; depth-2 nested root after a plain sibling: S267; files over 1 MiB with a changing number of formats: S263; colliding relative paths across histories for diff: S262; two library objects / two commands of one process: S260, S269, S277). Side remarks of the authors about the unchanged code were reproduced and, where genuine, repaired (F25, F27-F30). "
              f"Last full regression (all patches applied to /repo HEAD f5d1260 in throw-away worktrees, quick tier of the seed's own check): "
              f"258 of 258 non-retired seeds reported, 16 of 16 property-preserving patches silent in all 20 checks.\n") + rest
 open("/verif/DESIGN.md", "w").write(d)
